@@ -740,8 +740,8 @@ class Matcher:
                 v, e = m.group(1), m.group(2).strip()
                 if (binds or {}).get(v) is not None or re.search(r"(?<!\$)\$" + v + r"\b", e):
                     continue
-                if self.find(pats[i], dict(binds or {})):
-                    continue  # the temporary exists as written: the failure lies elsewhere
+                if any(isinstance((b_.get(v) or (None, None))[1], ast.Name) for _n, b_ in self.find(pats[i], dict(binds or {}))):
+                    continue  # the temporary exists as written (a variable of its own): the failure lies elsewhere
                 others = [re.sub(r"(?<!\$)\$" + v + r"\b", lambda _m: "(" + e + ")", q) for j, q in enumerate(srcs) if j != i]
                 if others == [q for j, q in enumerate(srcs) if j != i]:
                     continue  # nobody uses it
